@@ -637,6 +637,28 @@ class Evaluator:
         elif isinstance(target, (ast.Tuple, ast.List)):
             n = len(target.elts)
             v = self._record_as_tuple(v)
+            stars = [i for i, e in enumerate(target.elts) if isinstance(e, ast.Starred)]
+            if len(stars) == 1:
+                # a, *rest, z = seq : the starred name takes what the others leave, as a list
+                items = _fixed_items(v)
+                k = stars[0]
+                after = n - k - 1
+                if items is not None and len(items) >= n - 1:
+                    for e, x in zip(target.elts[:k], items[:k]):
+                        self.assign(e, x, fr)
+                    self.assign(target.elts[k].value, T.lst(items[k:len(items) - after]), fr)
+                    for e, x in zip(target.elts[k + 1:], items[len(items) - after:] if after else []):
+                        self.assign(e, x, fr)
+                    return
+                if items is not None:
+                    self._pending_raise = T.raise_('ValueError')
+                    return
+                if k == n - 1 and T.type_of(v) in ('list', None):
+                    # symbolic sequence: first elements by index, the rest as the slice behind them
+                    for i, e in enumerate(target.elts[:k]):
+                        self.assign(e, T.getitem(v, T.const(i)), fr)
+                    self.assign(target.elts[k].value, T.slice_(v, T.const(k), T.NONE), fr)
+                    return
             if T.tag(v) in ('tuple', 'list') and len(v[1]) == n:
                 for e, x in zip(target.elts, v[1]):
                     self.assign(e, x, fr)
